@@ -255,8 +255,8 @@ def rule_A4(ctx):
                 r.finding(p, "found-not-pushed", loc(f["hir"]), "the identifier was found in the input value but the path returns Ok with operand delta %s instead of pushing it" % d)
         if not seen_lookup:
             r.finding(p, "no-input-lookup", loc(f["hir"]), "resolve() never looks the identifier up in the current input value (get_access_addr is not called)")
-    r.floor("instruction functions that can defer to the host", n_defer_fns, 22)
-    r.floor("paths with a host callback", n_paths, 60)
+    r.floor("instruction functions that can defer to the host", n_defer_fns, 10)
+    r.floor("paths with a host callback", n_paths, 20)
     # in resolve(): an accepted/declined host call is the only way past the input lookup without a push
     return r
 
@@ -323,7 +323,7 @@ def rule_A5(ctx):
             r.examine((p, repr((left, right))), True, {"fn": name, "left": _fmt(left), "right": _fmt(right), "ok": ok})
             if not ok:
                 r.finding(p, "defer-args:%s|%s" % (_fmt(left), _fmt(right)), loc(f["hir"]), "`%s` offers the host defer_op(%s, %s): %s" % (name, _fmt(left), _fmt(right), why))
-    r.floor("distinct defer_op argument shapes", n, 22)
+    r.floor("distinct defer_op argument shapes", n, 8)
     # two-operand value constructors: the operand popped second is the left / first component
     right_first = spec("templates.json").get("right_first_runtime", {"make_pair": "Pair is emitted right operand first"})
     n_ctor = 0
@@ -352,7 +352,7 @@ def rule_A5(ctx):
             r.examine((p, ctor, repr((a, b))), True, {"fn": name, "constructor": ctor, "arguments": [_fmt(a), _fmt(b)], "ok": ok})
             if not ok:
                 r.finding(p, "ctor-args:%s(%s,%s)" % (ctor, _fmt(a), _fmt(b)), loc(f["hir"]), "`%s` builds its result with %s(%s, %s); the left/first component must be %s and the right/second %s" % (name, ctor, _fmt(a), _fmt(b), _fmt(want[0]), _fmt(want[1])))
-    r.floor("two-operand constructor calls on popped operands", n_ctor, 5)
+    r.floor("two-operand constructor calls on popped operands", n_ctor, 1)
     return r
 
 
@@ -383,7 +383,7 @@ def rule_G3(ctx):
             t = b["term"]
             if t["k"] == "Call" and last(t.get("def") or "") == "unsupported_types" and "RuntimeError" in t["def"] and not b["cleanup"]:
                 ctor += 1
-    r.floor("constructions of RuntimeError::unsupported_types()", ctor, 3)
+    r.floor("constructions of RuntimeError::unsupported_types()", ctor, 1)
     r.analysed["unsupported_types_constructions"] = ctor
     total_pairs = 0
     for p in sorted(instruction_fns(F)):
